@@ -928,6 +928,10 @@ class SR(_Base, numbers.Real):
         return r if r is NotImplemented else ~r
 
     # conversions ----------------------------------------------------------
+    def __hash__(self):
+        # structural hash (domains keep symbolic distances in hashed tuples); equality stays symbolic
+        return hash(simp(self.e).sexpr())
+
     def __float__(self):
         e = simp(self.e)
         if is_const(e):
@@ -1516,6 +1520,12 @@ class SymArr(np.ndarray):
 
     def __array_finalize__(self, obj):
         pass
+
+    def astype(self, dtype, *a, **k):
+        """coercion of symbolic entries to a floating / complex dtype is a no-op (the engine's reals stand for floats)"""
+        if self.dtype == object and np.dtype(dtype).kind in "fc" and any(isinstance(v, (SR, SC)) for v in self.reshape(-1)):
+            return self if k.get("copy", True) is False else self.copy()
+        return np.ndarray.astype(self, dtype, *a, **k)
 
     @property
     def real(self):
